@@ -53,7 +53,8 @@ Record wf (c : conv) (rs : list record) (d : str) : Prop := {
   wf_recs : forall r, In r rs <-> In r (recs c);
   wf_syn : forall p, dget p (synmap c) = option_map r_prefix (owner_by_prefix rs p);
   wf_pmap : forall p, dget p (pmap c) = option_map r_uri (owner_by_prefix rs p);
-  wf_trie : forall u, find u (ctrie c) = option_map r_prefix (owner all_uris rs u) }.
+  wf_trie : forall u, find u (ctrie c) = option_map r_prefix (owner all_uris rs u);
+  wf_rpmap : forall u, dget u (rpmap c) = option_map r_prefix (owner all_uris rs u) }.
 
 Definition conv_query (q : query) : bool :=
   match q with
@@ -273,6 +274,7 @@ Proof.
   - intro u. rewrite Et, find_trie_of.
     + rewrite Erp. apply idx_lookup; auto.
     + rewrite Erp. unfold idx_of. apply idx_keys_nodup. constructor.
+  - intro u. rewrite Erp. apply idx_lookup; auto.
 Qed.
 
 Section Strict.
